@@ -15,6 +15,7 @@ A check module (checks/cXX.py) provides
 Exit codes: 0 held (known findings allowed), 1 violation, 2 harness error.
 """
 import argparse
+import contextlib
 import hashlib
 import importlib
 import json
@@ -242,7 +243,9 @@ def _worker(job):
     ctx = Ctx(_MODULE.PROPERTY, tier, seed, shard)
     t0 = time.time()
     try:
-        _MODULE.run_shard(shard, ctx)
+        # the library prints progress messages; keep the check's stdout for the protocol lines
+        with open(os.devnull, 'w') as devnull, contextlib.redirect_stdout(devnull):
+            _MODULE.run_shard(shard, ctx)
     except HarnessError as e:
         return idx, {'harness_error': '%s\n%s' % (e, traceback.format_exc())}
     except Exception as e:  # an exception that escaped every guard: judged like one inside
